@@ -2,6 +2,9 @@
 import os
 
 
+XMX = ["-Xmx3g"]  # the machine is shared: every TLC run has a heap cap
+
+
 def run(ctx):
     thorough = ctx.tier == "thorough"
     ctx.rule = ("MC: TLC explores every New/Set call sequence of the builder within the bounds and every raw pair list (repeated names, "
@@ -28,27 +31,35 @@ def run(ctx):
     ]
     ctx.sany("amf0", "Amf0")
     # thorough: the quick bounds once more with -coverage 1 (every action of the module is taken), then one more call
-    ctx.tlc("amf0", "MC_Amf0", "MC_Amf0_keyed.cfg", coverage=thorough)
+    ctx.tlc("amf0", "MC_Amf0", "MC_Amf0_keyed.cfg", coverage=thorough, jopts=XMX)
     if thorough:
-        ctx.tlc("amf0", "MC_Amf0", "MC_Amf0_keyed.thorough.cfg", timeout=840)
+        ctx.tlc("amf0", "MC_Amf0", "MC_Amf0_keyed.thorough.cfg", timeout=840, jopts=XMX)
     # non-vacuity: the two defects this property had in the library, as named deviations of the specification
-    ctx.tlc("amf0", "MC_Amf0", "MC_Amf0_keyed_decodeset.cfg", expect_violation="Consumed", count_states=False)
-    ctx.tlc("amf0", "MC_Amf0", "MC_Amf0_keyed_countzero.cfg", expect_violation="RoundTrip", count_states=False)
+    ctx.tlc("amf0", "MC_Amf0", "MC_Amf0_keyed_decodeset.cfg", expect_violation="Consumed", count_states=False, jopts=XMX)
+    ctx.tlc("amf0", "MC_Amf0", "MC_Amf0_keyed_countzero.cfg", expect_violation="RoundTrip", count_states=False, jopts=XMX)
     # values as live objects (Amf0Live.tla): histories of calls - marshal, change below an attached node, assign a scalar in
     # place, replace a tree by its decoded copy, marshal again - exhaustively for observation / call / observation (thorough:
     # two calls) on every node of three-level chains; non-vacuity: a container that remembers its bytes and forgets them only
     # when Set is called on itself
     ctx.sany("amf0", "Amf0Live")
-    ctx.tlc("amf0", "MC_Amf0Live", "MC_Amf0Live_keyed.thorough.cfg" if thorough else "MC_Amf0Live_keyed.cfg", timeout=840)
-    ctx.tlc("amf0", "MC_Amf0Live", "MC_Amf0Live_keyed_cache.cfg", expect_violation="LiveSize", count_states=False)
+    # (the one-call bounds include start trees with one container made as a Go zero value; thorough adds the two-call bounds)
+    ctx.tlc("amf0", "MC_Amf0Live", "MC_Amf0Live_keyed.cfg", timeout=840, jopts=XMX)
+    if thorough:
+        ctx.tlc("amf0", "MC_Amf0Live", "MC_Amf0Live_keyed.thorough.cfg", timeout=840, jopts=XMX)
+    ctx.tlc("amf0", "MC_Amf0Live", "MC_Amf0Live_keyed_cache.cfg", expect_violation="LiveSize", count_states=False, jopts=XMX)
+    # non-vacuity of 'how the object came to be': a container whose marker byte only the New* constructors fill in
+    ctx.tlc("amf0", "MC_Amf0Live", "MC_Amf0Live_keyed_origin.cfg", expect_violation="LiveDecodes", count_states=False, jopts=XMX)
     cases = os.path.join(ctx.out, "cases.ndjson")
-    ctx.tlc("amf0", "Gen_Amf0", "Gen_Amf0_c05.%s.cfg" % ctx.tier, cases_to=cases, timeout=840)
+    ctx.tlc("amf0", "Gen_Amf0", "Gen_Amf0_c05.%s.cfg" % ctx.tier, cases_to=cases, timeout=840, jopts=XMX)
     # random New/Set behaviours of the builder (Set replacing values of existing names, nesting to depth 4);
     # num is per worker
-    ctx.tlc("amf0", "Gen_Amf0", "Gen_Amf0_c05.sim.cfg", simulate=700 if thorough else 40, depth=80, cases_to=cases, timeout=600)
+    ctx.tlc("amf0", "Gen_Amf0", "Gen_Amf0_c05.sim.cfg", simulate=700 if thorough else 40, depth=80, cases_to=cases, timeout=600, jopts=XMX)
     # histories: every marshal a / one call on x / marshal b with a, b at or above x, from every three-level start tree, built
     # or decoded (exhaustive); random walks of 14 calls with objects detached, moved, shared, re-decoded (simulation)
-    ctx.tlc("amf0", "Gen_Amf0Live", "Gen_Amf0Live_c05.%s.cfg" % ctx.tier, cases_to=cases, timeout=840)
-    ctx.tlc("amf0", "Gen_Amf0Live", "Gen_Amf0Live_c05.walk.cfg", simulate=200 if thorough else 25, depth=40, cases_to=cases, timeout=600)
+    ctx.tlc("amf0", "Gen_Amf0Live", "Gen_Amf0Live_c05.%s.cfg" % ctx.tier, cases_to=cases, timeout=840, jopts=XMX)
+    # how the objects came to be: every start tree with one container (root, child, grandchild) made as a zero value /
+    # composite literal / new(T), or decoded into a declared zero value; marshal, Set on it, marshal (exhaustive)
+    ctx.tlc("amf0", "Gen_Amf0Live", "Gen_Amf0Live_c05.origin.cfg", cases_to=cases, timeout=840, jopts=XMX)
+    ctx.tlc("amf0", "Gen_Amf0Live", "Gen_Amf0Live_c05.walk.cfg", simulate=200 if thorough else 25, depth=40, cases_to=cases, timeout=600, jopts=XMX)
     res = ctx.replay("amf0", cases)
     ctx.judge("amf0", cases, res)
